@@ -6,7 +6,7 @@ backwards, through locals with several definitions, until it reaches
   ('rv',   block, idx, rvalue)        an arithmetic / cast / load statement that produced the value,
   ('call', block, term, path)         the result (or a projection of it) of some other call,
   ('param', local, path)              a parameter of the function,
-  ('const', operand)                  a constant,
+  ('const', operand, block, idx)      a constant (and the statement that moved it into the traced value),
   ('unknown', why)                    something the tracer does not follow (fails closed in callers).
 The value observed at the starting point is one of the values produced at these leaves, unmodified: every step followed
 is a pure move of the value.  That is what lets a bound proved *at each leaf* (where the guards that justify it are
@@ -117,7 +117,7 @@ def trace(fn, local, path, seen=None, depth=0, at=None):
 
 def _from_operand(fn, b, i, o, path, seen, depth):
     if o['k'] == 'const':
-        return [('const', o)] if not path else [('unknown', 'projection %s of a constant' % path)]
+        return [('const', o, b, i)] if not path else [('unknown', 'projection %s of a constant' % path)]
     if not is_place(o):
         return [('unknown', 'operand')]
     pl = o['pl']
